@@ -76,6 +76,46 @@ instance (es : List Entry) : Decidable (PreorderMonotone es) := by
 def GoodSpan (m : Str × List Str) : Prop :=
   ∃ n a, m.2 = [posText n a] ∨ ∃ n' a', m.2 = [posText n a, posText n' a'] ∧ n ≤ n'
 
+/-- Line and address of the last positioned entry of an enumeration. -/
+def lastPosOfEntries (es : List Entry) : Option (Nat × List Nat) :=
+  (es.filterMap fun e => match e.item with
+    | .node _ _ _ (some n) => some (n, e.addr)
+    | _ => none).getLast?
+
+def fieldNameOk (n : Str) : Bool := !n.contains '=' && !n.contains '/' && !n.isEmpty
+
+mutual
+/-- Field names: no `=`, no `/`, not empty, pairwise distinct among siblings. -/
+def namesOkTree : Val → Bool
+  | .node _ _ _ _ fs => (fs.map (·.1)).all fieldNameOk && decide (fs.map (·.1)).Nodup && namesOkFields fs
+  | .list _ xs => namesOkItems xs
+  | .scalar _ _ => true
+def namesOkFields : List (Str × Val) → Bool
+  | [] => true
+  | (_, v) :: rest => namesOkTree v && namesOkFields rest
+def namesOkItems : List Val → Bool
+  | [] => true
+  | v :: rest => namesOkTree v && namesOkItems rest
+end
+
+mutual
+/-- **What the span of a `node` occurrence needs**: the line of a positioned node is not after the line
+of its last positioned strict descendant in dump order (the second capture of the pattern). -/
+def lastDescMono (names : List Str) (addr : List Nat) : Val → Bool
+  | .node _ _ _ ln fs =>
+    (match ln, lastPosOfEntries (entriesFields names addr 0 fs) with
+      | some n, some (n', _) => decide (n ≤ n')
+      | _, _ => true) && lastDescMonoFields names addr 0 fs
+  | .list _ xs => lastDescMonoItems names addr 1 xs
+  | .scalar _ _ => true
+def lastDescMonoFields (names : List Str) (addr : List Nat) (i : Nat) : List (Str × Val) → Bool
+  | [] => true
+  | (n, v) :: rest => lastDescMono (names ++ [n]) (addr ++ [i]) v && lastDescMonoFields names addr (i + 1) rest
+def lastDescMonoItems (names : List Str) (addr : List Nat) (i : Nat) : List Val → Bool
+  | [] => true
+  | v :: rest => lastDescMono (names ++ [dec i]) (addr ++ [i]) v && lastDescMonoItems names addr (i + 1) rest
+end
+
 /-- `Tree.WF` for the span theorems of C02 (Bool-valued, evaluated by the driver on every tree). -/
 def treeOk2 (t : Val) : Bool :=
   (entries [] [] t).all fun e => e.ok2 && e.typed (posTypes t).contains
